@@ -25,6 +25,16 @@ CLAIMED = {
             "Does not decide that the reported solution satisfies the equations (needs the Newton solver and the compiled evaluator, see C15/C16), "
             "the curve_fit quality of >=3-point pump curves, the monotonicity of the head-pump smoothing cubic (checked at run time by WNTR) or "
             "the complete PRV/PSV status automaton. Trusts sympy normal forms and sa/symx.py.", "DESIGN.md §4 C02"),
+    "C03": ("table extraction from BinFile.read (result table -> conversion parameter, first argument, data column; masked link-type slices), "
+            "conversion classes computed from C17's reference factors, abstract execution of the masked status assignments over all eight codes, "
+            "argument agreement of the write / open / read calls in EpanetSimulator.run_sim",
+            "NARROW CLAIM. Decides only the clause of C03 that is visible in the code's shape and necessary for it: the exchange path with EPANET is "
+            "unit-system independent and dimensionally right -- every result table read from EPANET's binary file is converted with the conversion "
+            "class of its physical dimension using the unit system recorded in that same file, link-status codes map to closed/open/active as "
+            "documented, and EpanetSimulator reads the results of exactly the INP it wrote in the configured units.",
+            "Does NOT decide that the two hydraulic engines agree numerically, control timing against EPANET's own timeline, nor the INP reader versus "
+            "the toolkit: those are run-time facts outside static reach. The writer's field conversions are decided under C12, the constants under C17.",
+            "DESIGN.md §4 C03"),
     "C04": ("finite region evaluation (partial evaluation of the conditions' evaluate methods over representative orderings of previous/current time "
             "vs threshold, per relation and repeat mode) against the instant/interval semantics; sort-site table; abstract first iteration of the "
             "rule clock; CFG dominance for rule-clock increments; classification tables",
